@@ -97,7 +97,9 @@ TRUSTED = [
 ]
 LEVEL_TEXT = (
     'Lean 4 theorems over the reals about the executable model: Q = 2pi/lambda (e_i - e_f); |Q|^2 = '
-    '(2pi/lambda)^2 (2 - 2cos 2theta) and |Q| = 4pi sin(theta)/lambda for the angle between the beams; invariance '
+    '(2pi/lambda)^2 (2 - 2cos 2theta) and |Q| = 4pi sin(theta)/lambda for the angle between the beams, in particular |Q_vec| = '
+    'Q_from_wavelength(lambda, two_theta(b_i, b_f)) with the two_theta of the beamline model (Kahan formula, C03) and the scalar '
+    'kernel of C01, no free hypothesis; invariance '
     'under positive rescaling of either beam; Q(R b_i, R b_f) = R Q(b_i, b_f) for every orthogonal R; '
     'det(R UB) != 0 -> 2pi R UB hkl = Q and hkl is the unique solution; UB v = U(B v); splitting and reassembling '
     'is the identity both ways and the DimensionError guard fires exactly on unequal sizes. The same definitions run '
